@@ -79,6 +79,8 @@ def extract(w, anchor, matrix):
     z = zero_alloc(x)
     return z is not None and z[3] == alloc_atom
 
+  pending = {}     # id(target node) -> (op, rhs) of the augmented assignment whose store event follows
+
   def do_store(e, loops, guards):
     base = as_poly(e.data["base"])
     ba = base.as_atom()
@@ -89,14 +91,24 @@ def extract(w, anchor, matrix):
       tab.writes.append({"kind": "row", "row": as_poly(e.data["index"]), "col": None, "value": e.data["value"], "loops": list(loops), "guards": list(guards), "line": line})
     elif e.data.get("outer_base") is not None and isinstance(e.data["outer_base"], Poly) and is_target(e.data["outer_base"]):
       v = e.data["value"]
-      if not isinstance(v, (Poly, int)):
+      acc = pending.pop(id(e.data.get("target")), None)
+      if acc is not None:
+        op, rhs = acc
+        if op != "Add" or not (isinstance(rhs, (Poly, int)) or (isinstance(rhs, Const) and isinstance(rhs.v, (int, float)) and not isinstance(rhs.v, bool))):
+          raise Incomplete("augmented store %s= at line %s is not modelled" % (op, line))
+        tab.writes.append({"kind": "add", "row": as_poly(e.data["outer_index"]), "col": as_poly(e.data["index"]), "value": Poly.const(rhs) if isinstance(rhs, int) else as_poly(rhs),
+                           "loops": list(loops), "guards": list(guards), "line": line})
+        return
+      if not (isinstance(v, (Poly, int)) or (isinstance(v, Const) and isinstance(v.v, (int, float)) and not isinstance(v.v, bool))):
         raise Incomplete("non-numeric cell value at line %s: %r" % (line, v))
-      tab.writes.append({"kind": "cell", "row": as_poly(e.data["outer_index"]), "col": as_poly(e.data["index"]), "value": as_poly(v), "loops": list(loops), "guards": list(guards), "line": line})
+      tab.writes.append({"kind": "cell", "row": as_poly(e.data["outer_index"]), "col": as_poly(e.data["index"]), "value": Poly.const(v) if isinstance(v, int) else as_poly(v),
+                         "loops": list(loops), "guards": list(guards), "line": line})
 
   def gather(state, start, head_pc_len, loops, guards, depth=0):
-    """events of state.trace[start:], with the loops that start in between expanded in place"""
+    """items for the events of state.trace[start:], with the loops that start in between expanded in place"""
     if depth > 6:
       raise Incomplete("loops nested too deeply")
+    items = []
     tr = state.trace
     pck = _pc_key(state.pc)
     here = []
@@ -107,22 +119,30 @@ def extract(w, anchor, matrix):
       if any(v is l_[4] for l_ in loops):
         continue
       here.append((len(pre.trace), len(pre.pc), getattr(li["node"], "lineno", 0), li, v))
-    here.sort(key=lambda t: (t[0], t[1], t[2]))
+    here.sort(key=lambda t_: (t_[0], t_[1], t_[2]))
     pos = start
     hi = 0
     while pos <= len(tr):
       while hi < len(here) and here[hi][0] == pos:
         _, _, _, li, v = here[hi]
         hi += 1
-        do_loop(li, v, loops, guards, depth)
+        it = do_loop(li, v, loops, guards, depth)
+        if it is not None:
+          items.append(it)
       if pos == len(tr):
         break
       e = w.events[tr[pos]]
-      if e.kind == "store":
+      if e.kind == "augstore":
+        pending[id(e.data.get("target"))] = (e.data.get("op"), e.data.get("rhs"))
+      elif e.kind == "store":
+        n0 = len(tab.writes)
         do_store(e, loops, guards)
+        for wr in tab.writes[n0:]:
+          items.append(("write", wr))
       elif e.kind == "mutate" and isinstance(e.data.get("recv"), (Poly, Atom)) and (is_target(e.data["recv"]) or (_atom(e.data["recv"]) is not None and _atom(e.data["recv"]).kind == "idx" and is_target(_atom(e.data["recv"]).args[0]))):
         raise Incomplete("in-place list method on the matrix at line %s" % getattr(e.node, "lineno", None))
       pos += 1
+    return items
 
   def do_loop(li, v, loops, guards, depth):
     if not isinstance(li["node"], ast.For):
@@ -133,14 +153,13 @@ def extract(w, anchor, matrix):
             e = w.events[i_]
             if e.kind == "store" and (is_target(as_poly(e.data["base"])) or (isinstance(e.data.get("outer_base"), Poly) and is_target(e.data["outer_base"]))):
               raise Incomplete("the matrix is filled inside a while loop (line %s)" % li["node"].lineno)
-      return
+      return None
     it = v["iter"]
     ra = _atom(it) if isinstance(it, Poly) else None
     k = as_poly(v["k"])
     if ra is not None and ra.kind == "range":
       args = [as_poly(x) for x in ra.args]
       start, stop, step = (Poly.const(0), args[0], Poly.const(1)) if len(args) == 1 else (args[0], args[1], Poly.const(1)) if len(args) == 2 else tuple(args)
-      count = None
     else:
       # iteration over a list value: k runs over 0 .. len(it) - 1
       start, stop, step = Poly.const(0), sym.mk("len", as_poly(it)) if isinstance(it, Poly) else None, Poly.const(1)
@@ -148,6 +167,7 @@ def extract(w, anchor, matrix):
         raise Incomplete("loop over an unmodelled iterable at line %s" % li["node"].lineno)
     paths = [bp for bp in li["body_paths"] if bp[4] is v]
     head = v["head"]
+    alts = []
     for kind, val, st, since, _ in paths:
       if kind not in ("fall", "continue"):
         touches = any(w.events[i_].kind == "store" for i_ in st.trace[since:])
@@ -155,9 +175,13 @@ def extract(w, anchor, matrix):
           raise Incomplete("the loop at line %s is left early" % li["node"].lineno)
         continue
       newf = list(st.facts[len(head.facts):])
-      gather(st, since, len(head.pc), loops + [(k, start, stop, step, v)], guards + newf, depth + 1)
+      sub = gather(st, since, len(head.pc), loops + [(k, start, stop, step, v)], guards + newf, depth + 1)
+      alts.append((newf, sub))
+    if not any(sub for _, sub in alts):
+      return None
+    return ("loop", k, start, stop, step, alts, li["node"].lineno)
 
-  gather(anchor, 0, 0, [], [])
+  tab.items = gather(anchor, 0, 0, [], [])
   return tab
 
 
@@ -245,24 +269,7 @@ def instantiate(tab, env):
     raise Incomplete("matrix size %r x %r is not a number at the sample lengths" % (tab.rows, tab.cols))
   grid = [[subst_all(tab.fill, env) for _ in range(C)] for _ in range(R)]
 
-  def run(wr, loops, env2):
-    if loops:
-      k, start, stop, step, _ = loops[0]
-      s0, s1, s2 = (subst_all(x, env2).as_int() for x in (start, stop, step))
-      if s0 is None or s1 is None or s2 is None or s2 == 0 or abs(s1 - s0) > 4096:
-        raise Incomplete("loop bounds %r, %r, %r at line %s are not numbers at the sample lengths" % (start, stop, step, wr["line"]))
-      ka = k.as_atom()
-      for t, _val in enumerate(range(s0, s1, s2)):
-        run(wr, loops[1:], env2 + [(ka, t)])
-      return
-    for g in wr["guards"]:
-      verdict = _eval_fact(g, env2)
-      if verdict is False:
-        return
-      if verdict is None and isinstance(g, tuple) and g and g[0] == "cmp":
-        ok_irrelevant = not any(isinstance(x, Poly) and any(a.kind == "sym" and any(a == l[0].as_atom() for l in wr["loops"]) for a in x.all_atoms()) for x in g[2:4])
-        if not ok_irrelevant:
-          raise Incomplete("guard %r at line %s is not decided at the sample lengths" % (g, wr["line"]))
+  def apply(wr, env2):
     r = subst_all(wr["row"], env2).as_int()
     if r is None:
       raise Incomplete("row index %r at line %s is not a number at the sample lengths" % (wr["row"], wr["line"]))
@@ -270,7 +277,7 @@ def instantiate(tab, env):
       r += R
     if not 0 <= r < R:
       raise IndexError("row %d outside the %d x %d matrix (line %s)" % (r, R, C, wr["line"]))
-    if wr["kind"] == "cell":
+    if wr["kind"] in ("cell", "add"):
       c = subst_all(wr["col"], env2).as_int()
       if c is None:
         raise Incomplete("column index %r at line %s is not a number at the sample lengths" % (wr["col"], wr["line"]))
@@ -278,7 +285,10 @@ def instantiate(tab, env):
         c += C
       if not 0 <= c < C:
         raise IndexError("column %d outside the %d x %d matrix (line %s)" % (c, R, C, wr["line"]))
-      grid[r][c] = subst_all(wr["value"], env2)
+      if wr["kind"] == "add":
+        grid[r][c] = as_poly(grid[r][c]) + subst_all(wr["value"], env2)
+      else:
+        grid[r][c] = subst_all(wr["value"], env2)
     else:
       items = list_items(wr["value"], env2)
       if items is None:
@@ -287,9 +297,49 @@ def instantiate(tab, env):
         raise IndexError("row of length %d stored into the %d x %d matrix (line %s)" % (len(items), R, C, wr["line"]))
       grid[r] = items
 
-  for wr in tab.writes:
-    run(wr, wr["loops"], list(env))
+  def holds(guards, env2, ksyms, line):
+    for g in guards:
+      verdict = _eval_fact(g, env2)
+      if verdict is False:
+        return False
+      if verdict is None and isinstance(g, tuple) and g and g[0] == "cmp":
+        relevant = any(isinstance(x, Poly) and any(a in ksyms for a in x.all_atoms()) for x in g[2:4])
+        if relevant:
+          raise Incomplete("guard %r at line %s is not decided at the sample lengths" % (g, line))
+    return True
+
+  def run_items(items, env2, ksyms):
+    for it in items:
+      if it[0] == "write":
+        apply(it[1], env2)
+        continue
+      _, k, start, stop, step, alts, line = it
+      s0, s1, s2 = (subst_all(x, env2).as_int() for x in (start, stop, step))
+      if s0 is None or s1 is None or s2 is None or s2 == 0 or abs(s1 - s0) > 4096:
+        raise Incomplete("loop bounds %r, %r, %r at line %s are not numbers at the sample lengths" % (start, stop, step, line))
+      ka = k.as_atom()
+      for t_, _val in enumerate(range(s0, s1, s2)):
+        env3 = env2 + [(ka, t_)]
+        taken = [sub for guards, sub in alts if holds(guards, env3, ksyms | {ka}, line)]
+        if len(taken) > 1 and any(taken[0] is not x and _flat(x) != _flat(taken[0]) for x in taken):
+          # paths that differ only in conditions the table does not depend on write the same cells
+          raise Incomplete("two paths through the loop at line %s are possible for the same pass" % line)
+        if taken:
+          run_items(taken[0], env3, ksyms | {ka})
+
+  run_items(getattr(tab, "items", [("write", wr) for wr in tab.writes]), list(env), set())
   return grid
+
+
+def _flat(items):
+  out = []
+  for it in items:
+    if it[0] == "write":
+      wr = it[1]
+      out.append((wr["kind"], repr(wr["row"]), repr(wr.get("col")), repr(wr["value"]), wr["line"]))
+    else:
+      out.append(("loop", repr(it[1]), repr(it[2]), repr(it[3]), [(_flat(sub)) for _, sub in it[5]]))
+  return out
 
 
 def list_items(v, env):
